@@ -128,6 +128,145 @@ fn subs_f64(tape: &[u32], st: &mut Stats) -> CaseResult {
     }
 }
 
+/// replacements that are constants but still list variables (a vanished derivative, `p*0`, `p^0`):
+/// the result lists the untouched variables and the replacement's variables
+fn subs_vanished(tape: &[u32], st: &mut Stats) -> CaseResult {
+    let mut t = Tape::new(tape);
+    let cfg = CalcCfg { max_size: 6, nvars: 3, rational_only: true, nondiff_pct: 0, unary_pct: 15 };
+    let size = 1 + t.choose(6);
+    let a = gen_ct(&mut t, &cfg, size);
+    let ta: &'static str = crate::hist::leak(render_ct(&a, &mut t));
+    let mut av = vec![];
+    ct_vars(&a, &mut av);
+    let target = t.choose(3); // the replaced variable: x, y or z
+    let kind = t.choose(4);
+    let second = t.chance(40); // a second, ordinary replacement at the same time
+    let other = (target + 1) % 3;
+    // (description, value, listed variables) of the constant replacement
+    let (what, cval, cvars): (&str, f64, Vec<&str>) = match kind {
+        0 => ("d/dp (2.5*p+q) = 2.5 over [p, q]", 2.5, vec!["p", "q"]),
+        1 => ("p*0 over [p]", 0.0, vec!["p"]),
+        2 => ("(p+q)^0 = 1 over [p, q]", 1.0, vec!["p", "q"]),
+        _ => ("d/dq d/dq (q*q*1.5+x) = 3 over [q, x]", 3.0, vec!["q", "x"]),
+    };
+    let make = || -> Result<DeepEx<'static, f64>, String> {
+        type D = DeepEx<'static, f64>;
+        Ok(match kind {
+            0 => ex_msg(ex_msg(D::parse("2.5*p+q"))?.partial(0))?,
+            1 => ex_msg(ex_msg(D::parse("p"))? * D::zero())?,
+            2 => ex_msg(ex_msg(D::parse("p+q"))?.pow(D::zero()))?,
+            _ => ex_msg(ex_msg(D::parse("q*q*1.5+x"))?.partial_nth(0, 2))?,
+        })
+    };
+    let hit = av.contains(&target);
+    let hit2 = second && av.contains(&other);
+    st.class_if(hit, "the replaced variable occurs");
+    st.class(what);
+    let mut names: std::collections::BTreeSet<String> = av.iter().filter(|i| !(hit && **i == target) && !(hit2 && **i == other)).map(|i| VAR_NAMES[*i].to_string()).collect();
+    if hit {
+        names.extend(cvars.iter().map(|s| s.to_string()));
+    }
+    if hit2 {
+        names.insert("w".to_string());
+    }
+    let names: Vec<String> = names.into_iter().collect();
+    // reference: the target with the variable bound to the constant (and `other` to w+1)
+    fn subst(t: &CT, target: usize, c: f64, other: Option<usize>) -> CT {
+        match t {
+            CT::Var(i) if *i == target => CT::Num(format!("{c:?}")),
+            CT::Var(i) if Some(*i) == other => CT::Bin("+", Box::new(CT::Var(3)), Box::new(CT::Num("1".into()))),
+            CT::Un(o, x) => CT::Un(o, Box::new(subst(x, target, c, other))),
+            CT::Bin(o, x, y) => CT::Bin(o, Box::new(subst(x, target, c, other)), Box::new(subst(y, target, c, other))),
+            n => n.clone(),
+        }
+    }
+    let expected_tree = subst(&a, target, cval, if second { Some(other) } else { None });
+    if hit && st.nontrivial(&format!("{ta}|{target}|{kind}|{second}")) && st.want_sample() {
+        st.sample(json!({"target": ta, "replaced": VAR_NAMES[target], "by": what, "expected_vars": names}));
+    }
+    let describe = || json!({"target": ta, "replaced": VAR_NAMES[target], "by": what, "second_replacement": if second { format!("{} -> w+1", VAR_NAMES[other]) } else { String::new() }, "expected_vars": names});
+    // full assignment over x y z w p q
+    let value_of = |n: &str, p: &[f64]| -> f64 {
+        match n {
+            "x" => p[0],
+            "y" => p[1],
+            "z" => p[2],
+            "w" => p[3],
+            "p" => 7.0,
+            _ => -3.0,
+        }
+    };
+    let pts: Vec<Vec<f64>> = vec![vec![0.5, 2.0, -1.5, 3.0], vec![1.25, -0.75, 4.0, 0.25]];
+    let res = guard(|| -> Result<Vec<(&'static str, Vec<String>, Vec<f64>)>, String> {
+        let tname = VAR_NAMES[target];
+        let oname = VAR_NAMES[other];
+        let d = ex_msg(DeepEx::<f64>::parse(ta))?;
+        let mut sd = |n: &str| {
+            if n == tname {
+                make().ok()
+            } else if second && n == oname {
+                DeepEx::<f64>::parse("w+1").ok()
+            } else {
+                None
+            }
+        };
+        let ds = ex_msg(d.subs(&mut sd))?;
+        let f = ex_msg(exmex::FlatEx::<f64>::parse(ta))?;
+        let mut sf = |n: &str| {
+            if n == tname {
+                make().ok().and_then(|x| exmex::FlatEx::<f64>::from_deepex(x).ok())
+            } else if second && n == oname {
+                exmex::FlatEx::<f64>::parse("w+1").ok()
+            } else {
+                None
+            }
+        };
+        let fs = ex_msg(f.subs(&mut sf))?;
+        let mut out = vec![];
+        for (what, nm, ev) in [
+            ("DeepEx::subs", ds.var_names().to_vec(), Box::new(|v: &[f64]| ds.eval(v)) as Box<dyn Fn(&[f64]) -> exmex::ExResult<f64>>),
+            ("FlatEx::subs", fs.var_names().to_vec(), Box::new(|v: &[f64]| fs.eval(v))),
+        ] {
+            let mut vals = vec![];
+            for p in &pts {
+                let v: Vec<f64> = nm.iter().map(|n| value_of(n, p)).collect();
+                vals.push(ex_msg(ev(&v)).map_err(|e| format!("{what}: evaluating the result with {} values fails: {e}", v.len()))?);
+            }
+            out.push((what, nm, vals));
+        }
+        Ok(out)
+    });
+    match res {
+        Err(p) => Err(fail("C11/vanished/panic", format!("subs on `{ta}` panics: {p}"), describe())),
+        Ok(Err(e)) => Err(fail("C11/vanished/error", format!("subs on `{ta}` ({} -> {what}) fails: {e}", VAR_NAMES[target]), describe())),
+        Ok(Ok(list)) => {
+            for (route, got_names, vals) in list {
+                if got_names != names {
+                    return Err(fail(
+                        &format!("C11/vanished/{route}/var-names"),
+                        format!("{route} on `{ta}` with {} -> {what}: variables {got_names:?}, expected the union {names:?}", VAR_NAMES[target]),
+                        describe(),
+                    ));
+                }
+                for (p, v) in pts.iter().zip(vals) {
+                    let mut ok = true;
+                    let r: f64 = eval_ct(&expected_tree, p, &mut ok);
+                    let f = |q: &[f64]| {
+                        let mut o = true;
+                        let x: f64 = eval_ct(&expected_tree, q, &mut o);
+                        o.then_some(x)
+                    };
+                    let Some(sens) = sensitivity(&f, p) else { continue };
+                    if ok && !close_cond(v, r, 1e-9, sens) {
+                        return Err(fail(&format!("C11/vanished/{route}/value"), format!("{route} on `{ta}` with {} -> {what} at {p:?}: {v}, expected {r}", VAR_NAMES[target]), describe()));
+                    }
+                }
+            }
+            Ok(())
+        }
+    }
+}
+
 pub fn def() -> PropDef {
     PropDef {
         id: "C11",
@@ -143,6 +282,11 @@ pub fn def() -> PropDef {
                 name: "subs_f64",
                 rule: "three rational expressions over x,y,z,w x map (empty | x->b | x->b,y->c | y->b,x->c) on FlatEx<f64> and DeepEx<f64>; variables, value at 3 points (1e-9), printed text parses back",
                 kind: Kind::Tape { len: 200, quick: 15_000, thorough: 600_000, f: subs_f64 },
+            },
+            SubCheck {
+                name: "subs_vanished",
+                rule: "a rational expression over x,y,z with one variable replaced by a constant that still lists variables (vanished first/second derivative, p*0, (p+q)^0), optionally a second variable by w+1, on DeepEx<f64> and FlatEx<f64>: variable list = untouched variables + the replacements' listed variables, value at 2 points; non-trivial = the replaced variable occurs",
+                kind: Kind::Tape { len: 120, quick: 4_000, thorough: 200_000, f: subs_vanished },
             },
         ],
     }
